@@ -11,6 +11,11 @@ NOTE = ("Trusted: the symgo engine (fork of x/tools go/ssa/interp + SMT encoding
 
 # id -> (claim text, design ref)
 CLAIMS = {
+ "C14": ("For every representable value: stor.Writer.Put1..5/PutStr/PutStrs and Reader.Get*, 5-byte small offsets, the mux zig-zag "
+         "varint (all int64; length == varint.Len <= 10), size-prefixed strings/lists/records return exactly what was written and "
+         "out-of-range Puts panic; records of 1..3 fields (empty, 1-2 arbitrary bytes, or fillers putting the total at the 0x100 "
+         "(thorough: 0x10000) header-class boundary) read back field-for-field, Truncate keeps exactly the leading fields, and "
+         "tblength/mode arithmetic is right for all nfields<=0x3fff, datasize<=1e6 (solver verdict over all values).", "4 C14"),
  "C12": ("For all records of 1..2 (thorough 3) fields of 0..2 (thorough 3) arbitrary bytes each: byte order of ixkey.Spec.Key == field "
          "order == Spec.Compare, equal keys iff equal tuples (modulo trailing empties), Decode/Decode1 recover the fields, HasPrefix/"
          "SplitPrefixSuffix/JoinPrefixSuffix/TruncFunc and db19.rangeEnd select exactly the keys whose leading fields match, incl. "
